@@ -190,6 +190,7 @@ type Parser struct {
 	currFunc  string
 	currTypes []ValueType
 	usedFuncs map[string][]string // Stores which function (key) calls which functions (values).
+	importers []string            // Stores the paths of the files which are currently being parsed and led to this file.
 }
 
 func New() Parser {
@@ -725,7 +726,14 @@ func (p *Parser) evaluateImports(ctx context) ([]Statement, error) {
 				// If it's not a standard library path, an alias must be provided.
 				return nil, fmt.Errorf(`an alias must be provided for the local import "%s" in "%s"`, path, p.path)
 			}
+			absPath = filepath.Clean(absPath)
+
+			// A file must not import itself, neither directly nor via other files.
+			if absPath == p.path || slices.Contains(p.importers, absPath) {
+				return nil, fmt.Errorf(`import cycle: "%s" imported in "%s" is currently being imported`, path, p.path)
+			}
 			importParser := New()
+			importParser.importers = append(slices.Clone(p.importers), p.path)
 			importedProg, err := importParser.parse(absPath, true)
 
 			if err != nil {
